@@ -7,6 +7,7 @@ Import ListNotations.
 From CXV Require Import Parse.Fold Parse.FoldThms.
 From CXV Require Gen.PinsC12.
 From CXV Require Import Gen.TopLoop Parse.Balanced Parse.TopLoop.
+From CXV Require Gen.Facts.
 From CXV Require Import Gen.TokTy Parse.Declarator Parse.DeclSpec Parse.EnumList Parse.NsHeader.
 Open Scope N_scope.
 
@@ -75,6 +76,14 @@ Theorem statements_dispatched_once_in_order : forall (D : Type) p (l : list (stm
   map fst (run D p l) = map (fun s => dispatch (s_ty D s)) l.
 Proof. exact calls_in_order. Qed.
 
+(* the parser object has no other state a declaration could leave behind: the
+   only attributes of `self` ever stored to outside __init__ are state, visitor,
+   lex (swapped and restored inside one template argument list), anon_id and
+   current_namespace; no setattr / __dict__ / class-object stores (regenerated
+   from the AST of every method of CxxParser on every run) *)
+Theorem parser_keeps_no_other_state : Facts.fact_parser_instance_state_is_the_known_set = true.
+Proof. exact (eq_refl true). Qed.
+
 Print Assumptions namespace_header_decodes.
 Print Assumptions namespace_alias_decodes.
 Print Assumptions inline_nested_namespace_rejected.
@@ -91,3 +100,4 @@ Proof. vm_compute. reflexivity. Qed.
 Print Assumptions modelled_functions_are_the_pinned_ones.
 Print Assumptions pending_doc_text_does_not_leak.
 Print Assumptions statements_dispatched_once_in_order.
+Print Assumptions parser_keeps_no_other_state.
